@@ -11,8 +11,11 @@ import FeatherModel.Lemmas.ClassParse
 Theorems about the models of `write_code` (`Model/CodeWrite.lean`: the code array with its branch-offset fixpoint, the
 label table and the tables written from it) and of `PoolWrite` (`Model/PoolWrite.lean`). All quantify over **every**
 instruction list of the modelled instruction set (operand-less instructions, pushes, `ldc` family, local variable
-instructions in all three widths, `iinc`, `ret`, the 16 conditional branches, `goto`, `jsr`, both switches) — there is
-no bound on the length of the method, the number of jumps or the number of attempts.
+instructions in all three widths, `iinc`, `ret`, the 16 conditional branches, `goto`, `jsr`, both switches, field
+access, `invokevirtual/special/static/interface`, `new`, `newarray`, `anewarray`, `checkcast`, `instanceof`,
+`multianewarray` — everything `write_code` handles except `invokedynamic` and `ldc` of handles / method types /
+dynamic constants, which involve the BootstrapMethods attribute) — there is no bound on the length of the method, the
+number of jumps or the number of attempts.
 
 What "denotes" means is *not* defined by inverting the writer: `Spec/CodeDecode.lean` is a decoder transcribed from
 JVMS §6.5 (absolute branch targets, `wide` forms, switch padding computed from the address) and `Spec/CodeDenote.lean`
@@ -364,7 +367,8 @@ example : ClassParse.code (ClassWrite.codeBody ⟨1, 2, [0xb1], [[0, 1, 0, 0]], 
 /-! ## 7. Failure: clean errors, and the places where the Rust code panics instead -/
 
 /-- **Clean failure.** If the worst-case encoding of the method (every jump in its long form) stays below 65533
-bytes and no `tableswitch` spans more than `i32::MAX` keys, `write_code` never panics: it succeeds or returns the
+bytes, no `tableswitch` spans more than `i32::MAX` keys and no `invokeinterface` descriptor needs more than 255
+slots, `write_code` never panics: it succeeds or returns the
 explicit error. `_partial`: outside this domain the Rust code panics at the places witnessed below (the property
 asks for clean failure everywhere). -/
 theorem write_fails_cleanly_partial (is : List Insn) (hd : noPanicDom is = true) :
@@ -399,6 +403,13 @@ theorem truncated_last_label_panic_witness :
     (fun wide => by rw [pass_replicate_wide]; exact hs) hw (by rw [hpl]; exact hp) hu .eq 65533
   rw [hpl] at this
   exact this
+
+set_option maxRecDepth 8192 in
+/-- `invokeinterface` with more than 254 argument slots: `size += 1` in `get_arguments_size` (descriptor.rs:367)
+overflows `u8` (listed under C16 as well) -/
+theorem invokeinterface_count_panic_witness :
+    writeCode [.invokeinterface 5 (40 :: (List.replicate 127 74 ++ [73, 41, 86]))] = .panic := by
+  rfl
 
 /-- `high - low + 1` (simple_class_writer.rs:928) overflows `i32` -/
 theorem tableswitch_range_panic_witness :
